@@ -9,7 +9,7 @@ HERE="$(cd "$(dirname "$0")" && pwd)"
 BIN=$(mktemp -d /var/tmp/vsim-self.XXXXXX); trap 'rm -rf "$BIN"' EXIT
 (cd "$HERE" && go build -tags verif -ldflags=-checklinkname=0 -o "$BIN/vsim" ./cmd/vsim) || exit 2
 rc=0
-for EM in corofree:std model:coro model:close model:err quota:cpu quota:mem quotaadv:cpu quotaadv:mem ctx: ctxlua: table: conf:conf iso: iso:fresh gc: flags: crash:src crash:lib crash:lib-amp; do
+for EM in corofree:std model:coro model:close model:err quota:cpu quota:mem quotaadv:cpu quotaadv:mem ctx: ctxlua: table: conf:conf conf:snap iso: iso:fresh gc: flags: crash:src crash:lib crash:lib-amp; do
   E=${EM%%:*}; M=${EM#*:}
   n=$N; [ "$E" = gc ] && n=$((N/5)); [ "$E" = iso ] && n=$((N/2))
   i=0
